@@ -186,6 +186,31 @@ SPEC = {
         'notes': ['filter design / stability test / lfilter_zi pinned; zi * y[..., :1] -> the abstract initial state finit of '
                   'the first sample; lfilter -> mapAccum of the abstract recurrence; `while y.shape[-1] == 0: y = (yield)` -> '
                   'the step keeps waiting (state None) on empty chunks']},
+    'auto_th': {
+        'params': {'n': ('(thr : list A -> T) (ge : T -> A -> O) (baseline_samples : Z)', None), 'baseline': (None, None),
+                   'target': (None, 'target'), 'fs': (None, None), 'mode': (None, None), 'auto_th_cb': (None, None),
+                   'current_th_cb': (None, None)},
+        'defaults': ["'auto'", "'positive'", 'None', 'None'],
+        'tparams': '{A T O : Type}', 'out': 'oblk', 'zvars': ['baseline_samples'],
+        'state': [('auto_th', 'T')],
+        'pinned': {
+            "if fs is None or fs == 'auto':\n    fs = data.fs": ('drop',),
+            'baseline_samples = int(np.round(baseline * fs))': ('drop',),
+            'auto_th = data[..., :baseline_samples].view(np.ndarray).std() * n':
+                ('let', 'auto_th', 'T', 'thr (py_slice None (Some baseline_samples) (dat data))'),
+            "log.info('Automatic threshold set to %f', auto_th)": ('drop',),
+            'if auto_th_cb is not None:\n    auto_th_cb(auto_th)': ('drop',),
+            'th = (lambda: auto_th) if current_th_cb is None else current_th_cb': ('drop',),
+            "if mode == 'positive':\n    th_cb = lambda d, th=th: d >= th()\nelif mode == 'negative':\n"
+            "    th_cb = lambda d, th=th: d <= -th()\nelif mode == 'both':\n"
+            "    th_cb = lambda d, th=th: (d >= th()) | (d <= -th())\nelse:\n"
+            "    raise ValueError(f'Unsupported mode: \"{mode}\"')": ('drop',),
+            'result = th_cb(data)': ('let', 'result', 'oblk', 'map_blk (ge auto_th) data'),
+            "if isinstance(result, PipelineData):\n    result.metadata['auto_th'] = th": ('drop',)},
+        'notes': ['baseline_samples = int(np.round(baseline * fs)) (fs possibly read from the first chunk) -> abstract input; the '
+                  'threshold `data[..., :baseline_samples].std() * n` -> abstract thr of the first baseline_samples samples; the '
+                  'comparison lambdas / current_th_cb -> abstract ge; log, auto_th_cb and the metadata entry are dropped; '
+                  'state: inl None (nothing received), inl (Some data) (spooling), inr threshold (running)']},
 }
 # the executable instance (stream positions as sample values, Stages/Model.v) used by the self-test of every translation
 CHECKS = {
@@ -211,6 +236,8 @@ CHECKS = {
                     '  eqb_outs (outs_of (run (mc_reference_gen_step (fun x : Z => x)) (mc_reference_gen_init (fun x : Z => x)) (inputs h s0 sizes))) got.',
     'iirfilter': 'Definition gcheck_iirfilter h s0 sizes got : bool :=\n'
                  '  eqb_outs (outs_of (run (iirfilter_gen_step sfilt sfinit) None (inputs h s0 sizes))) got.',
+    'auto_th': 'Definition gcheck_auto_th (Bn : Z) (table : list Z) h s0 sizes got : bool :=\n'
+               '  eqb_outs (outs_of (run (auto_th_gen_step (sthr Bn) (sge table) Bn) (inl None) (inputs h s0 sizes))) got.',
 }
 TYPES = {'Z': 'Z', 'blk': 'blk A', 'optblk': 'option (blk A)', 'optZ': 'option Z', 'listblk': 'list (blk A)', 'F': 'F',
          'oblk': 'blk O', 'ev': 'events', 'listev': 'list events', 'listZ': 'list Z', 'rblk': 'rblk', 'T': 'T',
@@ -667,7 +694,77 @@ class Coro:
                 raise TranslatorGap(f'state variable `{v}` is not defined at the end of a step')
             vals.append(coerce(v, env.ty[v], ty))
         assert len(names) == len(vals)
+        if self.spool:
+            return f'Some (inr {tup(vals)}, outs)'
         return f'Some (Some {tup(vals)}, outs)' if self.rotated else f'Some ({tup(vals)}, outs)'
+
+    def spooled(self, pro, lb, ys, penv, otype):
+        """P0; x = (yield); P1; while <test on x>: x = <x joined with (yield)>; P2; while True: B; x = (yield)
+        three phases: nothing received yet = inl None; spooling = inl (Some x); running = inr (state variables)"""
+        yp, w = pro[ys[0]], pro[ys[1]]
+        if not is_yield(yp) or not lb or not is_yield(lb[-1]) or lb[-1].targets[0].id != yp.targets[0].id \
+                or any(has_yield([st_]) and not isinstance(st_, ast.If) for st_ in lb[:-1]):
+            gap(w, 'a spooling coroutine must receive with the same `x = (yield)` before the spooling loop and at the end of the main loop')
+        x = self.chunk_var = yp.targets[0].id
+        if (w.orelse or len(w.body) != 1 or has_yield([w.test]) or not isinstance(w.body[0], ast.Assign)
+                or [ast.unparse(t) for t in w.body[0].targets] != [x]):
+            gap(w, 'a spooling loop must be `while <test>: x = <one statement that receives a chunk>`')
+        if x in dict(self.state):
+            gap(w, 'the chunk variable cannot be a state variable')
+        p0, p1, p2 = pro[:ys[0]], pro[ys[0] + 1:ys[1]], pro[ys[1] + 1:]
+        if any(self.calls_target(st_) for st_ in p1 + [w] + p2):
+            gap(w, 'target called before the main loop')
+        got = {}
+        t0 = self.block(p0, penv, lambda e: got.setdefault('env', e) and '')
+        if t0.strip() or set(got['env'].ty) != set(penv.ty):
+            gap(self.fn, 'statements before the first (yield) must all be pinned and dropped')
+        names = [v for v, _ in self.state]
+        xt = TYPES[self.chunk_type]
+        sty = ' * '.join(TYPES[t] for v, t in self.state) or 'unit'
+        stype = f'option ({xt}) + ' + (f'({sty})' if '*' in sty else sty)
+        res = f'option (({stype}) * {otype})'
+        only_x = lambda e: set(e.ty) == set(penv.ty) | {x}
+        # the main loop
+        body = self.block(lb[:-1], Env({**penv.ty, **dict(self.state), x: self.chunk_type}), self.end_step)
+        binds = ' '.join(f'({v} : {TYPES[t]})' for v, t in self.state)
+        defs = list(self.aux)
+        defs.append(f'Definition {self.name}_gen_body {self.tparams} {self.binders} {binds} ({x} : {xt})\n'
+                    f'  : {res} :=\n' + ind(f'let outs : {otype} := [] in\n{body}') + '.')
+
+        # the test of the spooling loop, then P2 and the first pass of the main loop
+        def enter(e):
+            for v in names:
+                if v not in e.ty:
+                    raise TranslatorGap(f'state variable `{v}` is not set when the loop is entered')
+            extra_locals = set(e.ty) - set(penv.ty) - set(names) - {x}
+            if extra_locals:
+                raise TranslatorGap(f'locals that are not declared state: {sorted(extra_locals)}')
+            return (f'{self.name}_gen_body {self.args} ' +
+                    ' '.join('(' + coerce(v, e.ty[v], dict(self.state)[v]) + ')' for v in names) + f' {x}')
+        e1 = penv.copy()
+        e1.set(x, self.chunk_type)
+        c, ty = self.expr(w.test, e1)
+        if ty != 'bool':
+            gap(w.test, 'condition not covered')
+        go = self.block(p2, e1, enter)
+        defs.append(f'Definition {self.name}_gen_spool {self.tparams} {self.binders} ({x} : {xt})\n  : {res} :=\n' +
+                    ind(f'if {c} then\n  Some (inl (Some {x}), []) (* keeps spooling *)\nelse\n' + ind(go)) + '.')
+
+        def to_spool(e):
+            self.allow_yield = False
+            if not only_x(e):
+                raise TranslatorGap('only the chunk variable may be carried through the spooling loop')
+            return f'{self.name}_gen_spool {self.args} {x}'
+        self.allow_yield = True
+        first = self.block([yp], penv.copy(), lambda e: (setattr(self, 'allow_yield', False), self.block(p1, e, to_spool))[1])
+        self.allow_yield = True
+        acc = self.block(w.body, e1.copy(), to_spool)
+        self.allow_yield = False
+        defs.append(f'Definition {self.name}_gen_step {self.tparams} {self.binders} (st : {stype}) (chunk : {xt})\n'
+                    f'  : {res} :=\n  match st with\n  | inl None =>\n' + ind(ind(first)) +
+                    f'\n  | inl (Some {x}) =>\n' + ind(ind(acc)) +
+                    f'\n  | inr {pat(names).lstrip(chr(39))} =>\n    {self.name}_gen_body {self.args} {" ".join(names)} chunk\n  end.')
+        return defs
 
     def translate(self):
         fn, spec = self.fn, self.spec
@@ -697,11 +794,14 @@ class Coro:
         ys = [i for i, s in enumerate(pro) if has_yield([s])]
         lb = loop.body
         self.rotated = bool(ys)
+        self.spool = (len(ys) == 2 and isinstance(pro[ys[1]], ast.While) and ys[1] > ys[0] + 1)
         sty = ' * '.join(TYPES[t] for v, t in self.state) or 'unit'
         sty1 = f'option ({sty})' if self.rotated else (f'({sty})' if '*' in sty else sty)
         res = f'option ({sty1} * {otype})'
         defs = []
-        if not self.rotated:
+        if self.spool:
+            defs = self.spooled(pro, lb, ys, penv, otype)
+        elif not self.rotated:
             # P0; while True: x = (yield); B      or      while True: if <pure test>: x = (yield).. else: y = (yield)..
             self.chunk_var = None
             first = lb[0] if lb else None
@@ -816,7 +916,7 @@ class Coro:
 
 
 ALL = ('discard', 'blocked', 'downsample', 'derivative', 'decimate', 'rms', 'event_rate', 'transform',
-       'mc_reference', 'iirfilter')
+       'mc_reference', 'iirfilter', 'auto_th')
 
 
 def translate(repo, targets=ALL):
